@@ -31,6 +31,31 @@ theorem any_applyOps (m : Str → Bool) (ops : List MaskOp) :
   · rintro ⟨a, ha, hm⟩
     exact ⟨a, (mem_applyOps ops [] a).2 (by simpa using ha), hm⟩
 
+theorem inEffect_true (ops : List MaskOp) (a : Str) (cur : Bool) (h : inEffect ops a cur = true) :
+    cur = true ∨ a ∈ ops.flatMap (·.pos) := by
+  induction ops generalizing cur with
+  | nil => exact Or.inl h
+  | cons op ops ih =>
+    simp only [inEffect] at h
+    rcases ih _ h with h1 | h1
+    · by_cases hp : a ∈ op.pos
+      · exact Or.inr (by simp [hp])
+      · by_cases hn : a ∈ op.neg
+        · simp [hp, hn] at h1
+        · simp only [List.contains_iff_mem, hp, hn, if_false] at h1
+          exact Or.inl h1
+    · exact Or.inr (by simp [h1])
+
+theorem hitB_iff (m : Str → Bool) (ops : List MaskOp) : hitB m ops = true ↔ Hit m ops := by
+  unfold hitB Hit
+  simp only [List.any_eq_true, Bool.and_eq_true]
+  constructor
+  · rintro ⟨a, _, h1, h2⟩; exact ⟨a, h1, h2⟩
+  · rintro ⟨a, h1, h2⟩
+    rcases inEffect_true ops a false h1 with h | h
+    · exact Bool.noConfusion h
+    · exact ⟨a, h, h1, h2⟩
+
 /-! ## keywords -/
 
 def NoNegL (l : List Str) : Prop := ∀ t ∈ l, isNeg t = false
